@@ -48,20 +48,20 @@ try:
         print(("ok      " if ok else "DEFECT  ") + label + "\n          source: " + source_text + "\n          shown : " + str(shown))
         if not ok: bad.append(label)
 
-    r = row("arr");  check("macros.html:var.dimension#1", "arr(merge(2,3,k<n))", r, r is not None and "k<n" in r)
-    r = row("arr2"); check("macros.html:var.attribs | join#1", "dimension(merge(2,3,k<n))", r, r is not None and "k<n" in r)
+    r = row("arr");  check("macros.html:var.dimension | e#1 (fixed fb9f8e7)", "arr(merge(2,3,k<n))", r, r is not None and "k<n" in r)
+    r = row("arr2"); check("macros.html:var.attribs | join | e#1 (fixed fb9f8e7)", "dimension(merge(2,3,k<n))", r, r is not None and "k<n" in r)
     r = row("kk");   check("macros.html:var.full_type | relurl#1", "integer(kind=kind(k<n))", r, r is not None and "kind(k<n)" in squash(r))
     heads = [text(h) for h in mod.find_all(["h2", "h3"])]
     h = [x for x in heads if "subroutine s(" in x.replace(" (", "(")]
-    check("macros.html:proc.bindC#1", 'bind(c, name="s<u>name")', h, any('name="s<u>name"' in x for x in h))
+    check("macros.html:proc.bindC | e#1 (fixed fb9f8e7)", 'bind(c, name="s<u>name")', h, any('name="s<u>name"' in x for x in h))
     rv = retval("module/m.html"); check("macros.html:proc.retvar.full_declaration | relurl#1", "integer(kind=kind(k<n)) :: r", rv, any("integer(kind=kind(k<n))" in x for x in rv))
     rv = retval("type/t_t.html"); check("macros.html:proc.retvar.full_declaration | relurl#2 (type-bound summary)", "integer(kind=kind(k<n)) :: r", rv, any("integer(kind=kind(k<n))" in x for x in rv))
     th = [text(h) for h in soup("type/t_t.html").find_all(["h2", "h3", "h4"])]
-    check("macros.html:proc.bindC#2 (type-bound summary)", 'bind(c, name="s<u>name")', [x for x in th if "subroutine" in x], any('name="s<u>name"' in x for x in th))
+    check("macros.html:proc.bindC | e#2 (type-bound summary, fixed fb9f8e7)", 'bind(c, name="s<u>name")', [x for x in th if "subroutine" in x], any('name="s<u>name"' in x for x in th))
     rv = retval("proc/f.html"); check("proc_page.html:procedure.retvar.full_declaration | relurl#1", "integer(kind=kind(k<n)) :: r", rv, any("integer(kind=kind(k<n))" in x for x in rv))
-    for name, key, want in (("g1", "nongenint_page.html:var.kind#1", "integer(kind=kind(k<n))"), ("g2", "nongenint_page.html:var.strlen#1", "character(len=kind(k<n))"),
-                            ("g3", "nongenint_page.html:attrib#1", "dimension(merge(2,3,k<n))"), ("g4", "nongenint_page.html:var.dimension#1", "(merge(2,3,k<n))"),
-                            ("g5", "nongenint_page.html:var.proto[1]#1", "(k<n)")):
+    for name, key, want in (("g1", "nongenint_page.html:var.kind | e#1 (fixed fb9f8e7)", "integer(kind=kind(k<n))"), ("g2", "nongenint_page.html:var.strlen | e#1 (fixed fb9f8e7)", "character(len=kind(k<n))"),
+                            ("g3", "nongenint_page.html:attrib | e#1 (fixed fb9f8e7)", "dimension(merge(2,3,k<n))"), ("g4", "nongenint_page.html:var.dimension | e#1 (fixed fb9f8e7)", "(merge(2,3,k<n))"),
+                            ("g5", "nongenint_page.html:var.proto[1] | e#1 (fixed fb9f8e7)", "k<n")):
         rv = retval(f"interface/{name}.html"); check(key, want, rv, any(want in x for x in rv))
     t = squash(text(soup("namelist/nl.html"))); check("macros.html:variable.full_type | relurl#1 (namelist page)", "integer(kind=kind(k<n)) :: kk", t[-160:], "integer(kind=kind(k<n))" in t)
     r = row("lit1"); check("(escaped site, for comparison) macros.html:var.initial|e#1", "'<u>x</u>' // \"a  b & c\"", r, r is not None and "'<u>x</u>'//\"a  b & c\"" in squash(r))
